@@ -836,6 +836,11 @@ fn c13(r: &Runner) {
     if !ws.contains(&1024) {
         ws.push(1024);
     }
+    if !SWEEP {
+        // beyond the f64 range: bases and values >= 2^1024
+        ws.push(1025);
+        ws.push(2048);
+    }
     ws.sort();
     ws.dedup();
     for bits in ws {
@@ -878,6 +883,31 @@ fn c13(r: &Runner) {
                 k += 1;
                 if p >= m {
                     break;
+                }
+            }
+        }
+        // every value of P(B) (all bit lengths, MAX and its neighbours) with the degrees at both ends of the range
+        for v in pow2_nbhd(bits) {
+            for d in [1usize, 2, 3, 4, 5, 7, 63, 64, 65, bits / 2, bits - 1, bits, bits + 1, bits + 2] {
+                if d >= 1 {
+                    rootc.push([vu(&v), V::n(d)]);
+                }
+            }
+        }
+        // bases at and around the top of the width and of the f64 range, as log bases and arguments
+        {
+            let mut big_bases: Vec<BigUint> = vec![&m - 1u32, &m - 2u32, pow2(bits - 1), pow2(bits - 1) + 1u32, pow2(bits / 2), pow2(bits / 2 + 1) - 1u32];
+            if bits > 1024 {
+                big_bases.extend([pow2(1023), pow2(1024) - pow2(970), pow2(1024) - 1u32, pow2(1024), pow2(1024) + 1u32, pow2(1025)]);
+            }
+            for b in &big_bases {
+                if b >= &m || b < &BigUint::from(2u32) {
+                    continue;
+                }
+                for v in [b - 1u32, b.clone(), b + 1u32, &m - 1u32, b * 2u32, b * b, b * b - 1u32] {
+                    if v < m && !v.is_zero() {
+                        logc.push([u(&v, bits), u(b, bits)]);
+                    }
                 }
             }
         }
